@@ -15,6 +15,7 @@ import numpy
 from .common import Infra
 from . import c16_extract as X
 from . import c16_sched as S
+from . import c16_zoo as Z
 
 MAIN_PID = os.getpid()
 
@@ -311,7 +312,8 @@ def run(c):
     import treelog
     quick = c.tier == 'quick'
     c.rule = ('scripts: random evaluable DAGs with 1-3 outer loops (LoopSum / LoopConcatenate over scalars, vectors, Inflate scatters, nested loops, '
-              'loops reading earlier loops) and nutils integrals / sample evaluations on rectilinear meshes, compiled under maxprocs 2-8; '
+              'loops reading earlier loops), the in-place protocol zoo (all chains of Transpose / Diagonalize / Add outside and Transpose / Diagonalize / Add / inner LoopSum / inner LoopConcatenate inside a parallel LoopSum / LoopConcatenate over generic / Inflate / Assemble / matrix leaves: length <= 1 exhaustively, <= 2 sampled (quick) or exhaustively (thorough), as written and simplified+optimized) '
+              'and nutils integrals / sample evaluations on rectilinear meshes, compiled under maxprocs 2-8; '
               'schedules: event lists s<w>/k<w>/x<w> for 1-4 real processes sharing one parallel.range(0..4), biased to contention inside __next__; '
               'faults: (role, kind, ordinal) in a probe evaluated inside the loop; a case is non-trivial when the loop has >= 2 iterations and >= 2 processes; '
               'distinct by script text / event list / fault triple')
@@ -319,6 +321,7 @@ def run(c):
         'a `with lock:` block is atomic w.r.t. other blocks on the same multiprocessing.Lock, and shared mmap memory is coherent between processes (OS / CPython)',
         'the slices `out[..., start:stop]` written by different iterations of a LoopConcatenate are disjoint (offsets are cumulative sizes); lockOK treats them as private slots',
         'evalf functions called from generated scripts do not modify their arguments in place',
+        'tiling: the buffer of an inner LoopConcatenate (process-local, allocated in front of the parallel loop) is completely rewritten by one pass of the inner loop, slice by slice; lockOK accepts such a buffer as per-iteration scratch without establishing that the slices cover it (the exact serial/parallel comparison of the zoo covers it dynamically)',
         'OS scheduling cannot be enumerated: real-process streams explore it (random delays, race amplifier); the theorems quantify over all schedules of the model',
         'a worker SIGKILLed while holding a lock makes the call hang (liveness is outside the property); faults are injected outside lock regions',
     ]
@@ -330,11 +333,12 @@ def run(c):
     def ask(kind, payload, line):
         reqs.append((kind, payload, line))
 
-    t_budget = dict(quick=dict(nscripts=45, nnutils=14, nsched=110, nfault=16, amp=10), thorough=dict(nscripts=700, nnutils=160, nsched=4000, nfault=220, amp=120))[c.tier]
+    t_budget = dict(quick=dict(nscripts=45, nnutils=14, nsched=110, nfault=16, amp=10, zoo_extra=60, zoo_dyn=48, zoo_amp=48),
+                    thorough=dict(nscripts=700, nnutils=160, nsched=4000, nfault=220, amp=120, zoo_extra=10**6, zoo_dyn=700, zoo_amp=500))[c.tier]
     # wall-clock boxes per real-process stream (seconds): the case lists are deterministic, a loaded machine just gets through a shorter prefix
-    box = dict(quick=dict(m1=10, m2=6, m3=4, loc=3, sched=10, width=4, shared=4, fault=8), thorough=dict(m1=200, m2=100, m3=80, loc=40, sched=240, width=30, shared=30, fault=180))[c.tier]
+    box = dict(quick=dict(m1=10, m2=6, m3=4, loc=3, sched=10, width=4, shared=4, fault=8, zoo=7, zooamp=6), thorough=dict(m1=200, m2=100, m3=80, loc=40, sched=240, width=30, shared=30, fault=180, zoo=150, zooamp=150))[c.tier]
     import random
-    R = {k: random.Random(c.rng.getrandbits(64)) for k in ('m1', 'm2', 'm3', 'loc', 'x', 'sched', 'shared', 'fault', 'explore', 'search')}
+    R = {k: random.Random(c.rng.getrandbits(64)) for k in ('m1', 'm2', 'm3', 'loc', 'x', 'sched', 'shared', 'fault', 'explore', 'search', 'zoo')}
     c.search_rng = R['search']
     def boxed(name, items, minimum=3):
         """iterate over items until the stream's time box is used up (but at least `minimum` items)"""
@@ -344,9 +348,22 @@ def run(c):
                 c.count('timebox:%s:stopped-after' % name, k); return
             yield it
 
+    def mk_regen(evaluate):
+        """thunk(nprocs, amplify): evaluate the same expression again, no hooks, optionally with the race amplifier"""
+        def thunk(nprocs, amplify=0.):
+            HOOK[0] = None
+            with quiet(), Capture(amplify=amplify), parallel.maxprocs(nprocs):
+                try:
+                    return evaluate()
+                except Exception as e:
+                    return ('exception', type(e).__name__, str(e)[:200])
+        return thunk
+
     # ------------------------------------------------------------------ stream M1: parallel == serial on generated evaluables
     HOOK[0] = None
     par_scripts = {}           # script text -> tag
+    regen = {}                 # script text -> thunk(nprocs, amplify) re-evaluating the expression the script was compiled from (failing-input search)
+    c._regen = regen
     m1_fail = 0; m1_n = 0
     counts = multiprocessing.RawArray('i', 64); cnt_lock = multiprocessing.Lock(); pidlog = multiprocessing.RawArray('i', 64)
     def count_hook(k):
@@ -368,11 +385,11 @@ def run(c):
             tag += '+compiled-twice'
             arg = ev.Argument('c16arg', (), int)
             outs = tuple(o * ev.astype(ev.appendaxes(arg, o.shape), o.dtype) if o.ndim else o * ev.astype(arg, o.dtype) for o in outs) + outs
-            def evaluate():
+            def evaluate(outs=outs, flags=flags):
                 f = ev.compile(outs, **flags)
                 return canon((f({'c16arg': numpy.array(2)}), f({'c16arg': numpy.array(3)})))
         else:
-            def evaluate():
+            def evaluate(outs=outs, flags=flags):
                 return canon(ev.eval_once(outs, **flags))
         with quiet():
             HOOK[0] = None
@@ -392,7 +409,7 @@ def run(c):
             HOOK[0] = None
         m1_n += 1
         pscripts = [s for s in cap.scripts if 'parallel.ctxrange' in s]
-        for s in pscripts: par_scripts.setdefault(s, tag)
+        for s in pscripts: par_scripts.setdefault(s, tag); regen.setdefault(s, mk_regen(evaluate))
         c.case(('m1', tuple(pscripts)), nontrivial=n >= 2 and bool(pscripts))
         c.count('m1:nprocs=%d' % nprocs); c.count('m1:parallel-script' if pscripts else 'm1:no-parallel-script')
         for k in tag.split('+'): c.count('m1:kind:' + k)
@@ -429,7 +446,7 @@ def run(c):
                     got = ('exception', type(e).__name__, str(e)[:200])
         m2_n += 1
         pscripts = [s for s in cap.scripts if 'parallel.ctxrange' in s]
-        for s in pscripts: par_scripts.setdefault(s, tag)
+        for s in pscripts: par_scripts.setdefault(s, tag); regen.setdefault(s, mk_regen(lambda fn=fn: canon(fn())))
         c.case(('m2', tag, tuple(pscripts)), nontrivial=bool(pscripts))
         c.count('m2:kind:' + tag.split('/')[0]); c.count('m2:parallel-script' if pscripts else 'm2:no-parallel-script')
         if got != ref:
@@ -440,6 +457,123 @@ def run(c):
             c.traces += 1
     c.obligation('corr:parallel-equals-serial:nutils', m2_fail == 0, 'correspondence', '%d problems (exact, dyadic data)' % m2_n)
     c.log('done: corr:parallel-equals-serial:nutils')
+
+    # ------------------------------------------------------------------ stream Z: the in-place protocol zoo (c16_zoo): every `_compile_with_out`
+    # chain (Transpose / Diagonalize / Add / LoopSum / LoopConcatenate views of an output array) around and inside a parallel loop
+    z_fail = 0; z_n = 0; z_dyn = 0; z_amp = 0
+    core = Z.all_specs(1, 1)
+    coreset = set(core)
+    rest = [sp for sp in Z.all_specs(2, 2) if sp not in coreset]
+    asis = dict(_simplify=False, _optimize=False); full = dict(_simplify=True, _optimize=True)
+    plan = [(sp, asis) for sp in core]                                  # deterministic core: the structure compiled as written
+    extra = [(sp, full) for sp in core] + [(sp, fl) for sp in rest for fl in (asis, full)]
+    R['zoo'].shuffle(extra)
+    plan += extra[:t_budget['zoo_extra']]
+    def zoo_evaluate(spec, n, variant, flags, probe):
+        def evaluate():
+            return canon(ev.eval_once((Z.build(spec, n, variant, probe=P_ if probe else None),), **flags))
+        return evaluate
+    P_ = probe_class()
+    zoo_cases = []
+    with Z.CountInplace() as inplace:
+        for spec, flags in plan:
+            n = R['zoo'].choice([2, 3, 4, 5, 6]); variant = R['zoo'].randrange(6); nprocs = R['zoo'].choice([2, 3, 4])
+            name = Z.spec_name(spec)
+            with quiet():
+                try:
+                    expr = Z.build(spec, n, variant)
+                except Exception as e:
+                    c.count('zoo:build-exception:' + type(e).__name__); continue
+                with Capture() as cap, parallel.maxprocs(nprocs):
+                    try:
+                        ev.compile((expr,), **flags); err = None
+                    except Exception as e:
+                        err = ('exception', type(e).__name__, str(e)[:200])
+                if err is not None:
+                    try:
+                        with parallel.maxprocs(1):
+                            ev.compile((expr,), **flags)
+                        serial_ok = True
+                    except Exception:
+                        serial_ok = False
+                    c.count('zoo:compile-exception:' + err[1])
+                    if serial_ok:
+                        z_fail += 1
+                        c.failing_input('parallel-result-differs:evaluable', 'compiling %s raises %s under maxprocs(%d) but not under maxprocs(1)' % (name, err[1], nprocs),
+                                        dict(stream='zoo-compile', spec=name, n=n, variant=variant, flags=flags, nprocs=nprocs, parallel=err))
+                    continue
+            z_n += 1
+            pscripts = [s_ for s_ in cap.scripts if 'parallel.ctxrange' in s_]
+            tag = 'zoo:' + name
+            for s_ in pscripts:
+                par_scripts.setdefault(s_, tag); regen.setdefault(s_, mk_regen(zoo_evaluate(spec, n, variant, flags, False)))
+            c.case(('zoo', tuple(pscripts)), nontrivial=bool(pscripts))
+            c.count('zoo:compiled'); c.count('zoo:parallel-script' if pscripts else 'zoo:no-parallel-script')
+            for w in spec[0]: c.count('zoo:outside:' + w)
+            for w in spec[2]: c.count('zoo:inside:' + w)
+            c.count('zoo:par:' + spec[1]); c.count('zoo:leaf:' + spec[3])
+            zoo_cases.append((spec, flags, n, variant))
+    for k_, v_ in sorted(inplace.hits.items()): c.count('zoo:_compile_with_out:' + k_, v_)
+    # dynamic runs: one random member per stratum (first outside wrapper, parallel loop kind, first inside wrapper), exact comparison
+    def strata_round():
+        by_ = {}
+        for case in zoo_cases:
+            sp = case[0]
+            by_.setdefault((sp[0][:1], sp[1], sp[2][:1]), []).append(case)
+        picks = [R['zoo'].choice(v) for k, v in sorted(by_.items())]
+        R['zoo'].shuffle(picks)
+        return picks
+    dyn = []
+    while len(dyn) < t_budget['zoo_dyn'] and zoo_cases: dyn += strata_round()
+    for spec, flags, n, variant in boxed('zoo', dyn[:t_budget['zoo_dyn']], 6):
+        name = Z.spec_name(spec); evaluate = zoo_evaluate(spec, n, variant, flags, True)
+        nprocs = R['zoo'].choice([2, 3, 4, 8])
+        with quiet():
+            HOOK[0] = None
+            try:
+                with parallel.maxprocs(1):
+                    ref = evaluate()
+            except Exception as e:
+                c.count('zoo:serial-exception:' + type(e).__name__); continue
+            HOOK[0] = delay_hook if R['zoo'].random() < .7 else None
+            with Capture() as cap, parallel.maxprocs(nprocs):
+                try:
+                    got = evaluate()
+                except Exception as e:
+                    got = ('exception', type(e).__name__, str(e)[:200])
+            HOOK[0] = None
+        z_dyn += 1
+        pscripts = [s_ for s_ in cap.scripts if 'parallel.ctxrange' in s_]
+        for s_ in pscripts:
+            par_scripts.setdefault(s_, 'zoo:' + name); regen.setdefault(s_, mk_regen(evaluate))
+        c.case(('zoo-dyn', tuple(pscripts)), nontrivial=bool(pscripts)); c.count('zoo:dynamic:nprocs=%d' % nprocs)
+        if got != ref:
+            z_fail += 1
+            c.failing_input('parallel-result-differs:evaluable', 'in-place protocol zoo: %s gives a different result under maxprocs(%d) than under maxprocs(1)' % (name, nprocs),
+                            dict(stream='zoo', spec=name, n=n, variant=variant, flags=flags, nprocs=nprocs, serial=ref, parallel=got, scripts=pscripts))
+        else:
+            c.traces += 1
+        c.sample(dict(stream='zoo', spec=name, n=n, nprocs=nprocs, equal=got == ref), limit=12)
+    # the same family under the race amplifier (non-atomic in-place adds): an update that is not mutually exclusive loses contributions
+    amp = []
+    while len(amp) < t_budget['zoo_amp'] and zoo_cases: amp += strata_round()
+    for spec, flags, n, variant in boxed('zooamp', amp[:t_budget['zoo_amp']], 6):
+        name = Z.spec_name(spec); n = max(n, 3)
+        thunk = mk_regen(zoo_evaluate(spec, n, variant, flags, False))
+        ref = thunk(1)
+        if ref[0] == 'exception': continue
+        nprocs = R['zoo'].choice([2, 3, 4])
+        got = thunk(nprocs, 0.003)
+        z_amp += 1; c.count('zoo:amplified')
+        c.case(('zoo-amp', name, n, variant, repr(flags), nprocs), nontrivial=True)
+        if got != ref:
+            z_fail += 1
+            c.failing_input('parallel-result-differs:amplified', 'in-place protocol zoo: with non-atomic in-place adds (race amplifier) %s under maxprocs(%d) differs from serial: an update is not protected' % (name, nprocs),
+                            dict(stream='zoo-amplified', spec=name, n=n, variant=variant, flags=flags, nprocs=nprocs, serial=ref, parallel=got))
+        else:
+            c.traces += 1
+    c.obligation('corr:parallel-equals-serial:inplace-zoo', z_fail == 0, 'correspondence', '%d chains compiled under maxprocs>1, %d evaluated exactly, %d under the race amplifier' % (z_n, z_dyn, z_amp))
+    c.log('done: corr:parallel-equals-serial:inplace-zoo')
 
     # ------------------------------------------------------------------ stream M3: race amplifier (non-atomic in-place adds) on a subset
     m3_fail = 0; m3_n = 0
@@ -573,6 +707,24 @@ def run(c):
                 continue
             ask('lockok-neg', (mut, s2, tag), 'lockok||' + ' '.join(toks)); negs += 1
 
+    # alias controls: a view of the target (einsum diagonal, transpose, slice, reshape, …) bound to a fresh variable in front of the loop
+    # IS the shared array: the update through it needs the lock (negative control) and is fine with it (positive control)
+    pool = sorted(par_scripts.items())
+    R['x'].shuffle(pool)
+    nalias = 0
+    for s, tag in pool:
+        if nalias >= (16 if quick else 150): break
+        made = False
+        for keep in (False, True):
+            try:
+                h = Z.hoist_alias(s, R['x'], keep)
+                if h is None: break
+                toks, _ = X.describe(h[0])
+            except Exception:
+                break
+            ask('lockok-pos' if keep else 'lockok-neg', ('alias-hoist-locked' if keep else 'alias-hoist-unlocked', h[0], tag, s, h[1]), 'lockok||' + ' '.join(toks)); made = True
+        nalias += made
+
     # ------------------------------------------------------------------ stream M5: parallel.range / fork micro steps under a deterministic scheduler
     sched_cases = []
     corpus = [(2, 2, 's0 s0 s1 s0 s1 s1 s0 s1'.split()), (2, 1, 's0 s1 s0 s1 s0 s1 s0 s1'.split()), (3, 2, 's0 s1 s2 s0 s0 s0 k0'.split()),
@@ -660,7 +812,7 @@ def run(c):
             raise Infra('driver rejected request: ' + line[:300])
 
     # ---- X verdicts
-    x_fail = 0
+    x_fail = 0; rejected = []
     for (what, src, tag), line, a in by.get('lockok', []):
         f = a.split('|')
         ok = f[0] == 'ok=1'
@@ -669,20 +821,41 @@ def run(c):
         c.sample(dict(stream='x', tag=tag, verdict=f[0], bodies=f[4][:300]), limit=10)
         if ok: continue
         x_fail += 1
-        # search: run the script's expression family under maxprocs with the amplifier is not possible from the text alone for nutils-level scripts;
-        # re-execute the captured script itself (its globals are gone) is not possible either, so search through fresh expressions of the same tag
-        found = search_locate(c) if what == 'locate' else search_race(c, tag)
-        if not found:
-            c.broken_no_input('lockOK:' + what, 'Lean rejects the lock discipline of a generated script (%s; %s)' % (f[3], tag), dict(script=src, answer=a, tag=tag))
+        rejected.append((what, src, tag, f[3], a))
+    # a rejected script is not yet a failing input: search for one.  First the very expressions the rejected scripts were compiled from
+    # (race amplifier at increasing widths), then fresh expressions; one real wrong result stands for all rejected scripts
+    found_race = False
+    for what, src, tag, bad, a in rejected:
+        if what != 'locate' and not found_race:
+            found_race = search_same(c, src, tag)
+    if not found_race and any(what != 'locate' for what, *_ in rejected):
+        found_race = search_race(c, rejected[0][2])
+    nreported = 0
+    for what, src, tag, bad, a in rejected:
+        found = search_locate(c) if what == 'locate' else found_race
+        if not found and nreported < 5:
+            nreported += 1
+            c.broken_no_input('lockOK:' + what, 'Lean rejects the lock discipline of a generated script (%s; %s)' % (bad, tag), dict(script=src, answer=a, tag=tag))
+    if rejected: c.count('x:rejected-scripts', len(rejected))
     c.obligation('lockOK:generated-scripts', x_fail == 0, 'correspondence', '%d scripts + _locate' % len(by.get('lockok', [])))
     c.log('done: lockOK:generated-scripts')
     neg_fail = 0
-    for (what, src, tag), line, a in by.get('lockok-neg', []):
+    for (what, src, tag, *_), line, a in by.get('lockok-neg', []):
         c.count('x:negative-control:' + what)
         if a.startswith('ok=1'):
             neg_fail += 1
             c.broken_no_input('lockOK:negative-control', 'Lean accepts a script whose lock discipline was deliberately broken (%s): the static check is blind' % what, dict(script=src, answer=a))
     c.obligation('lockOK:negative-controls-rejected', neg_fail == 0, 'exploration', '%d broken scripts' % len(by.get('lockok-neg', [])))
+
+    verdict_of = {src: a.startswith('ok=1') for (what, src, tag), line, a in by.get('lockok', [])}
+    pos_fail = 0
+    for (what, src, tag, orig, view), line, a in by.get('lockok-pos', []):
+        c.count('x:positive-control:' + what); c.count('x:alias-view:' + view.replace('{T}', 'T').replace(' ', ''))
+        if verdict_of.get(orig) and not a.startswith('ok=1'):
+            pos_fail += 1
+            c.broken_no_input('lockOK:alias-positive-control', 'Lean rejects an accepted script after its locked accumulation target was bound to a variable (%s) in front of the loop: the alias rule is broken' % view,
+                              dict(script=src, answer=a))
+    c.obligation('lockOK:alias-views-are-the-shared-array', pos_fail == 0, 'exploration', '%d scripts with a hoisted view, lock kept' % len(by.get('lockok-pos', [])))
 
     # ---- range scheduler verdicts
     s_fail = 0
@@ -927,6 +1100,26 @@ def search_locate(c):
         if res[0] != res[1]:
             c.failing_input('parallel-result-differs:locate', 'search after a broken obligation: Topology.locate of 32 points gives a different outcome under maxprocs(4) than under maxprocs(1)',
                             dict(stream='search-locate', points=pts.tolist(), serial=res[0], parallel=res[1]))
+            return True
+    return False
+
+
+def search_same(c, script, tag):
+    """failing-input search for one rejected script: evaluate the very expression it was compiled from again, under maxprocs with the
+    race amplifier at increasing widths; at most a few scripts per run are searched"""
+    thunk = getattr(c, '_regen', {}).get(script)
+    c._same_left = getattr(c, '_same_left', 6 if c.tier == 'quick' else 20)
+    if thunk is None or c._same_left <= 0:
+        return False
+    c._same_left -= 1
+    ref = thunk(1)
+    for rep in range(5 if c.tier == 'quick' else 12):
+        nprocs = c.search_rng.choice([2, 3, 4])
+        got = thunk(nprocs, (0.005, 0.01, 0.02, 0.03, 0.05)[rep % 5])      # wider than a fork under load
+        c.count('search:same-expression-amplified-runs')
+        if got != ref:
+            c.failing_input('parallel-result-differs:amplified', 'search after the static lock discipline rejected a generated script (%s): with non-atomic in-place adds the same expression under maxprocs(%d) differs from serial' % (tag, nprocs),
+                            dict(stream='search-same', tag=tag, nprocs=nprocs, serial=ref, parallel=got, script=script))
             return True
     return False
 
